@@ -25,6 +25,63 @@ NUMERIC_LEAF_MODES = ['int', 'frac', 'srat', 'sint', 'float']
 SMALL = ('int', 'float', 'sint', 'mixed')       # small magnitudes: results stay inside the double range
 
 
+# container types for every argument that is a collection: the result must not depend on the type (re-iterable or one-shot)
+CONTAINERS = ['list', 'tuple', 'gen', 'iter', 'filter', 'map', 'dictvalues', 'nparray', 'deque', 'reversed', 'zipgen']
+# kinds of integer multipliers
+MULT_KINDS = ['int', 'int', 'int', 'sint', 'np64', 'np8', 'np32', 'frac']
+
+
+def as_container(kind, items):
+    """the list `items` as a collection of the given type (one-shot iterators included)"""
+    import collections
+    items = list(items)
+    if kind == 'list':
+        return items
+    if kind == 'tuple':
+        return tuple(items)
+    if kind == 'gen':
+        return (x for x in items)
+    if kind == 'iter':
+        return iter(items)
+    if kind == 'filter':
+        return filter(lambda x: True, items)
+    if kind == 'map':
+        return map(lambda x: x, items)
+    if kind == 'dictvalues':
+        return {i: x for i, x in enumerate(items)}.values()
+    if kind == 'nparray':
+        import numpy as np
+        a = np.empty(len(items), dtype=object)
+        for i, x in enumerate(items):
+            a[i] = x
+        return a
+    if kind == 'deque':
+        return collections.deque(items)
+    if kind == 'reversed':
+        return reversed(items[::-1])
+    if kind == 'zipgen':
+        return (x for x, _ in zip(items, items))
+    raise ValueError(kind)
+
+
+def mult_kind(node):
+    return node.get('nk') or ('sint' if node.get('sint') else 'int')
+
+
+def as_multiplier(kind, n):
+    """the integer n as a Python int / sympy.Integer / numpy integer / integral Fraction"""
+    n = int(n)
+    if kind == 'sint':
+        import sympy
+        return sympy.Integer(n)
+    if kind in ('np64', 'np32', 'np8'):
+        import numpy as np
+        return {'np64': np.int64, 'np32': np.int32, 'np8': np.int8}[kind](n)
+    if kind == 'frac':
+        return Fraction(n, 1)
+    return n
+
+
 def _rat(rng, kmode):
     if kmode == 'sym':
         return rng.choice(PRIMES)
@@ -107,7 +164,7 @@ def gen_tree(rng, depth, leaf, small=False):
         return {'t': 'leaf', 'eq': leaf()}
     if r < 0.42:
         n = rng.choice([-3, -2, -2, -1, -1, 1, 2, 2, 3] if small else [-4, -3, -2, -2, -1, -1, 1, 2, 2, 3, 4, 5]) if rng.random() > 0.03 else 0
-        return {'t': 'scale', 'n': n, 'right': rng.random() < 0.3, 'sint': rng.random() < 0.2,
+        return {'t': 'scale', 'n': n, 'right': rng.random() < 0.3, 'nk': rng.choice(MULT_KINDS),
                 'x': gen_tree(rng, depth - 1, leaf, small)}
     if r < 0.5:
         return {'t': 'neg', 'x': gen_tree(rng, depth - 1, leaf, small)}
@@ -125,7 +182,7 @@ def gen_history(rng, m, nsteps, small=False):
         r = rng.random()
         if r < 0.3:
             n = rng.choice([-2, -2, -1, -1, 1, 2] if small else [-4, -3, -2, -2, -1, -1, 1, 2, 3, 5]) if rng.random() > 0.03 else 0
-            steps.append({'t': 'scale', 'n': n, 'i': ref(), 'right': rng.random() < 0.3, 'sint': rng.random() < 0.2})
+            steps.append({'t': 'scale', 'n': n, 'i': ref(), 'right': rng.random() < 0.3, 'nk': rng.choice(MULT_KINDS)})
         elif r < 0.38:
             steps.append({'t': 'neg', 'i': ref()})
         else:
@@ -160,7 +217,7 @@ def run_history(pool_eqs, steps, kmode):
                 if isinstance(o, Exception):
                     raise o
             if st['t'] == 'scale':
-                n = sympy.Integer(st['n']) if st.get('sint') else int(st['n'])
+                n = as_multiplier(mult_kind(st), st['n'])
                 r = ops[0] * n if st.get('right') else n * ops[0]
             elif st['t'] == 'neg':
                 r = -ops[0]
@@ -184,6 +241,8 @@ def plain_multipliers(x):
     if isinstance(x, dict):
         if 'sint' in x:
             x['sint'] = False
+        if 'nk' in x:
+            x['nk'] = 'int'
         for v in x.values():
             plain_multipliers(v)
     elif isinstance(x, list):
@@ -253,6 +312,11 @@ def build_eq(e, kmode='frac', **kw):
     from chempy import Equilibrium
     cont = dict if e['dict'] else OrderedDict
     mk = lambda l: cont((k, int(v)) for k, v in l)
+    if e.get('set'):        # reac/prod given as sets of keys (multiplicity 1): `_init_stoich` turns them into sorted dicts
+        assert e['dict'] and all(v == 1 for _, v in e['reac'] + e['prod'])
+        mks = lambda l: set(k for k, _ in l)
+        return Equilibrium(mks(e['reac']), mks(e['prod']), _K(e['K'], e.get('km', kmode)),
+                           inact_reac=mk(e['ireac']), inact_prod=mk(e['iprod']), **kw)
     return Equilibrium(mk(e['reac']), mk(e['prod']), _K(e['K'], e.get('km', kmode)),
                        inact_reac=mk(e['ireac']), inact_prod=mk(e['iprod']), **kw)
 
@@ -264,7 +328,7 @@ def eval_tree(t, kmode):
         return build_eq(t['eq'], kmode)
     if k == 'scale':
         x = eval_tree(t['x'], kmode)
-        n = sympy.Integer(t['n']) if t.get('sint') else int(t['n'])
+        n = as_multiplier(mult_kind(t), t['n'])
         return x * n if t.get('right') else n * x
     if k == 'neg':
         return -eval_tree(t['x'], kmode)
@@ -370,6 +434,13 @@ def check_result(r, vec, K, netted, positive, kmode, what):
     """the property on a returned Equilibrium"""
     species = sorted(set(vec) | set(r.keys()) | {'__absent__'})
     got = dict(zip(species, r.net_stoich(species)))
+    # the observation itself takes a collection of keys: its type must not matter
+    import numpy as np
+    for kind, keys in (('tuple', tuple(species)), ('generator', (k for k in species)), ('dict keys', dict.fromkeys(species).keys()),
+                       ('numpy str array', np.array(species)), ('map', map(str, species))):
+        alt = tuple(r.net_stoich(keys))
+        if alt != tuple(got[k] for k in species):
+            return '%s: net_stoich(<%s>) = %r but net_stoich(<list>) = %r' % (what, kind, alt, tuple(got[k] for k in species))
     for s in species:
         if got[s] != vec.get(s, 0):
             return '%s: net coefficient of %s is %r, the integer combination of the operands gives %r' % (what, s, got[s], vec.get(s, 0))
@@ -461,9 +532,13 @@ class C11(Property):
         'compared to the exact value with 1e-9 relative tolerance (small magnitudes only)',
         'sympy.primefactors returns the primes dividing |n|: correspondence on 0..210 and on the generated coefficients only',
         'eliminate for more than two equilibria and cancel: correspondence only (the property text asks for two)',
+        'independence of the Python TYPE of collection arguments (rxns of eliminate as list / tuple / generator / iter / filter / map / dict view / '
+        'numpy object array / deque / reversed; substance keys of net_stoich; reac/prod given as sets) and of the integer TYPE of multipliers '
+        '(int, sympy.Integer, numpy int8/32/64, integral Fraction): the Lean model has one list type and Int; decided by correspondence and the '
+        'oracle (same result / same refusal as for a list resp. a Python int)',
         'multipliers that are not Python int / sympy.Integer (float.is_integer is truthy): outside model and property (finding 2 in notes/C11.md)',
     )
-    rule = ('HISTORIES: pools of 2-4 equilibrium objects and 2-10 statements (scale/negate/add/subtract) in which every operand and every earlier '
+    rule = ('eliminate with rxns given as every container type (re-iterable and one-shot); multipliers as int / sympy.Integer / numpy ints / integral Fraction; HISTORIES: pools of 2-4 equilibrium objects and 2-10 statements (scale/negate/add/subtract) in which every operand and every earlier '
             'result may be used again, checked per statement and for unchanged earlier objects; random expression trees (scale by -4..5 incl. 0, negate, add, subtract; int and sympy.Integer multipliers; n*e and e*n) over random '
             'equilibria on a pool of 3-6 species (shared species on opposite sides, species on both sides of one operand, coefficient 1, '
             'zero coefficients, inactive parts, dict and unsorted OrderedDict containers) with K as fractions.Fraction (incl. 0 and negative), '
@@ -493,13 +568,19 @@ class C11(Property):
         for a in range(-12, 13):
             for b in range(-12, 13):
                 if a and b:
-                    cases.append({'op': 'eliminate', 'wrt': 'X', 'kmode': 'frac',
+                    cases.append({'op': 'eliminate', 'wrt': 'X', 'kmode': 'frac', 'cont': CONTAINERS[(a * 25 + b) % len(CONTAINERS)],
                                   'eqs': [elim_eq(a, 'P', rat_json(Fraction(3, 2))), elim_eq(b, 'Q', rat_json(Fraction(5, 7)), ['R', 2])]})
         for z in ((0, 3), (3, 0), (0, 0)):
-            cases.append({'op': 'eliminate', 'wrt': 'X', 'kmode': 'frac',
-                          'eqs': [elim_eq(z[0] or 1, 'P', 2) if z[0] else elim_eq(1, 'P', 2) | {'prod': [['W', 1]]},
-                                  elim_eq(z[1], 'Q', 3) if z[1] else elim_eq(1, 'Q', 3) | {'prod': [['W', 1]]}]})
-        cases.append({'op': 'eliminate', 'wrt': 'X', 'kmode': 'frac', 'eqs': []})
+            for cont in ('list', 'gen', 'nparray'):
+                cases.append({'op': 'eliminate', 'wrt': 'X', 'kmode': 'frac', 'cont': cont,
+                              'eqs': [elim_eq(z[0] or 1, 'P', 2) if z[0] else elim_eq(1, 'P', 2) | {'prod': [['W', 1]]},
+                                      elim_eq(z[1], 'Q', 3) if z[1] else elim_eq(1, 'Q', 3) | {'prod': [['W', 1]]}]})
+        for cont in CONTAINERS:       # every container type on the docstring pair, a +-1 pair, a triple and the empty collection
+            cases.append({'op': 'eliminate', 'wrt': 'X', 'kmode': 'frac', 'cont': cont, 'eqs': [elim_eq(-4, 'P', 2), elim_eq(1, 'Q', 3, ['R', 2])]})
+            cases.append({'op': 'eliminate', 'wrt': 'X', 'kmode': 'frac', 'cont': cont, 'eqs': [elim_eq(1, 'P', 2), elim_eq(-1, 'Q', 3)]})
+            cases.append({'op': 'eliminate', 'wrt': 'X', 'kmode': 'frac', 'cont': cont,
+                          'eqs': [elim_eq(6, 'P', 2), elim_eq(-4, 'Q', 3), elim_eq(9, 'R', 5)]})
+            cases.append({'op': 'eliminate', 'wrt': 'X', 'kmode': 'frac', 'cont': cont, 'eqs': []})
         for m in range(0, 211):
             cases.append({'op': 'primefactors', 'n': m, 'negate': m % 2 == 1})
         step = 1 if tier == 'thorough' else 3
@@ -539,7 +620,9 @@ class C11(Property):
                 cases.append(plain_multipliers(c) if kmode == 'int' and has_zero_K(c) else c)
             elif r < 0.58:
                 e = gen_eq(rng, pool, kmode, inact=rng.random() < 0.5, plain=False, p_zero=0.1)
-                cases.append({'op': 'rmul', 'kmode': kmode, 'eq': e, 'n': rng.randint(-3, 3) if small else rng.randint(-5, 5)})
+                c = {'op': 'rmul', 'kmode': kmode, 'eq': e, 'n': rng.randint(-3, 3) if small else rng.randint(-5, 5), 'nk': rng.choice(MULT_KINDS),
+                     'right': rng.random() < 0.3}
+                cases.append(plain_multipliers(c) if kmode == 'int' and has_zero_K(c) else c)
             elif r < 0.68:
                 a = gen_eq(rng, pool, kmode, inact=rng.random() < 0.3, plain=rng.random() < 0.5, p_zero=0.05)
                 if rng.random() < 0.1:       # complete cancellation
@@ -561,7 +644,7 @@ class C11(Property):
                                 if rng.random() < 0.5:
                                     kv[1] = rng.randint(1, 60)
                     eqs.append(e)
-                cases.append({'op': 'eliminate', 'wrt': rng.choice(pool), 'kmode': 'frac', 'eqs': eqs})
+                cases.append({'op': 'eliminate', 'wrt': rng.choice(pool), 'kmode': 'frac', 'eqs': eqs, 'cont': rng.choice(CONTAINERS)})
             elif r < 0.92:
                 a = gen_eq(rng, pool, 'frac', inact=rng.random() < 0.2, p_both=0.25)
                 b = gen_eq(rng, pool, 'frac', inact=rng.random() < 0.2, p_both=0.25)
@@ -590,6 +673,10 @@ class C11(Property):
             e['prod'] = [list(kv) for kv in e['reac']]            # no effect
         elif m < 0.55:
             e['reac'], e['prod'] = [], []
+        elif m < 0.75:       # containers given as sets of keys
+            for kv in e['reac'] + e['prod']:
+                kv[1] = 1
+            e['dict'], e['set'] = True, True
         return {'op': 'mk', 'kmode': kmode, 'eq': e}
 
     # ---------------------------------------------------------------- model side
@@ -615,7 +702,8 @@ class C11(Property):
             if op == 'mk':
                 return show_equil(build_eq(c['eq'], km))
             if op == 'rmul':
-                return show_equil(int(c['n']) * build_eq(c['eq'], km))
+                n = as_multiplier(mult_kind(c), c['n'])
+                return show_equil(build_eq(c['eq'], km) * n if c.get('right') else n * build_eq(c['eq'], km))
             if op == 'neg':
                 return show_equil(-build_eq(c['eq'], km))
             if op == 'add':
@@ -631,7 +719,7 @@ class C11(Property):
                     lines.append('!MUTATED: ' + changed[0])
                 return ';;'.join(lines)
             if op == 'eliminate':
-                res = Equilibrium.eliminate([build_eq(e, km) for e in c['eqs']], c['wrt'])
+                res = Equilibrium.eliminate(as_container(c.get('cont', 'list'), [build_eq(e, km) for e in c['eqs']]), c['wrt'])
                 assert all(int(x) == x for x in res)
                 return show_int_list(res)
             if op == 'primefactors':
@@ -689,7 +777,7 @@ class C11(Property):
             if op == 'expr':
                 t = c['tree']
             elif op == 'rmul':
-                t = {'t': 'scale', 'n': c['n'], 'x': {'t': 'leaf', 'eq': c['eq']}}
+                t = {'t': 'scale', 'n': c['n'], 'nk': mult_kind(c), 'right': c.get('right', False), 'x': {'t': 'leaf', 'eq': c['eq']}}
             elif op == 'neg':
                 t = {'t': 'neg', 'x': {'t': 'leaf', 'eq': c['eq']}}
             else:
@@ -715,6 +803,20 @@ class C11(Property):
             return None
         if op == 'eliminate':
             eqs = c['eqs']
+            cont = c.get('cont', 'list')
+            # the collection type of `rxns` must not matter: same multipliers (or the same refusal) as for a list
+            try:
+                objs0 = [build_eq(e, km) for e in eqs]
+            except ValueError:
+                return None
+            outs = []
+            for kind in dict.fromkeys(['list', cont]):
+                try:
+                    outs.append([int(x) for x in Equilibrium.eliminate(as_container(kind, objs0), c['wrt'])])
+                except Exception as ex:
+                    outs.append(exc_name(ex))
+            if outs[0] != outs[-1]:
+                return 'eliminate(<%s of %d equilibria>, %r) gives %r, for a list of the same equilibria %r' % (cont, len(eqs), c['wrt'], outs[-1], outs[0])
             if len(eqs) != 2 or any(e['ireac'] or e['iprod'] for e in eqs):
                 return None
             v = [_net(e).get(c['wrt'], 0) for e in eqs]
@@ -725,7 +827,7 @@ class C11(Property):
             except ValueError:
                 return None
             try:
-                m = Equilibrium.eliminate(objs, c['wrt'])
+                m = Equilibrium.eliminate(as_container(cont, objs), c['wrt'])
             except Exception as ex:
                 return 'eliminate raised %s for coefficients %r' % (exc_name(ex), v)
             if len(m) != 2 or any(int(x) != x for x in m) or any(x == 0 for x in m):
@@ -834,7 +936,7 @@ class C11(Property):
         if op == 'history':
             return 'history:%dsteps:%s' % (len(c['steps']), c['kmode'])
         if op == 'eliminate':
-            return 'eliminate:%d' % len(c['eqs'])
+            return 'eliminate:%d:%s' % (len(c['eqs']), c.get('cont', 'list'))
         if op in ('rmul',):
             return 'rmul:%s' % ('neg' if c['n'] < 0 else 'zero' if c['n'] == 0 else 'pos')
         if op == 'as_reactions':
